@@ -84,3 +84,23 @@ def replay(run, behs, seed):
                     run.violation(case, exp, got, why)
     if behs:
         run.sample({"kind": behs[3]["kind"], "values": ["".join(v["t"]) for v in behs[3]["vals"]]})
+
+
+def crlf_cases(run):
+    """Modules with CRLF line endings whose values span lines (a quoted argument, a bracket argument, an option's
+    help text): the value is stated as written, carriage returns included - whatever newline handling the file is
+    read with."""
+    import agg
+    cases = [("set", 'set(MULTI "line one\r\nline two")', "line one\r\nline two"),
+             ("set", "set(BRK [[first\r\nsecond]])", "[[first\r\nsecond]]"),
+             ("option", 'option(OPT "help one\r\nhelp two" ON)', '"help one\r\nhelp two"')]
+    for kind, cmd, want in cases:
+        src = "#[[[\r\n# doc\r\n#]]\r\n" + cmd + "\r\nmessage(after)\r\n"
+        status, text, _, _ = agg.run_real(src, agg.make_settings())
+        run.count("crlf-value:" + cmd)
+        case = {"source": src, "features": {"kind": kind, "crlf": True, "multi_line_value": True}}
+        if status != "ok":
+            run.violation(case, "page", status + " " + text, "the pipeline raised on a CRLF module with a multi-line value")
+        elif want not in text:
+            run.violation(case, want, [l for l in text.split("\n") if "Default value" in l or "Help text" in l][:2],
+                          "a value that spans lines in a CRLF module is not stated as written")
